@@ -20,15 +20,24 @@ ANCHORS = {
         A('outrank/algorithms/feature_ranking/ranking_mi_numba.py', 'compute_conditional_entropy'),
         A('outrank/algorithms/feature_ranking/ranking_mi_numba.py', 'compute_entropies'),
         A('outrank/algorithms/feature_ranking/ranking_mi_numba.py', 'mutual_info_estimator_numba'),
+        A('outrank/core_ranking.py', 'mixed_rank_graph'),
+        A('outrank/algorithms/importance_estimator.py', 'numba_mi'),
+        A('outrank/algorithms/importance_estimator.py', 'conduct_feature_ranking'),
+        A('outrank/algorithms/importance_estimator.py', 'get_importances_estimate_pairwise'),
     ],
     'C02': [
         A('outrank/algorithms/feature_ranking/ranking_mi_numba.py', 'mutual_info_estimator_numba'),
         A('outrank/algorithms/feature_ranking/ranking_mi_numba.py', 'compute_entropies'),
         A('outrank/core_ranking.py', 'mixed_rank_graph'),
+        A('outrank/algorithms/importance_estimator.py', 'numba_mi'),
+        A('outrank/algorithms/importance_estimator.py', 'conduct_feature_ranking'),
     ],
     'C03': [
         A('outrank/algorithms/feature_ranking/ranking_mi_numba.py', 'compute_entropies'),
         A('outrank/algorithms/importance_estimator.py', 'numba_mi'),
+        A('outrank/core_ranking.py', 'mixed_rank_graph'),
+        A('outrank/algorithms/importance_estimator.py', 'conduct_feature_ranking'),
+        A('outrank/algorithms/importance_estimator.py', 'get_importances_estimate_pairwise'),
     ],
     'C04': [
         A('outrank/algorithms/importance_estimator.py', 'conduct_feature_ranking'),
@@ -55,12 +64,16 @@ ANCHORS = {
         A('outrank/core_ranking.py', 'prior_combinations_sample'),
         A('outrank/task_ranking.py', 'outrank_task_conduct_ranking'),
         A('outrank/core_ranking.py', '<module>'),
+        A('outrank/core_ranking.py', 'mixed_rank_graph'),
     ],
     'C08': [
         A('outrank/core_ranking.py', 'estimate_importances_minibatches'),
         A('outrank/core_ranking.py', 'get_grouped_df'),
         A('outrank/core_ranking.py', 'checkpoint_importances_df'),
         A('outrank/task_ranking.py', 'outrank_task_conduct_ranking'),
+        A('outrank/__main__.py', 'main'),
+        A('outrank/core_utils.py', 'get_dataset_info'),
+        A('outrank/core_utils.py', 'parse_csv_raw'),
     ],
     'C09': [
         A('outrank/core_ranking.py', 'mixed_rank_graph'),
@@ -70,6 +83,10 @@ ANCHORS = {
         A('outrank/core_ranking.py', 'prior_combinations_sample'),
         A('outrank/core_ranking.py', 'compute_batch_ranking'),
         A('outrank/core_ranking.py', 'compute_expanded_multivalue_features'),
+        A('outrank/core_utils.py', 'get_dataset_info'),
+        A('outrank/core_utils.py', 'parse_ob_raw_feature_information'),
+        A('outrank/core_utils.py', 'parse_csv_raw'),
+        A('outrank/__main__.py', 'main'),
     ],
     'C10': [
         A('outrank/core_ranking.py', 'compute_combined_features'),
@@ -89,6 +106,7 @@ ANCHORS = {
         A('outrank/feature_transformations/ranking_transformers.py', 'FeatureTransformerGeneric.get_vals'),
         A('outrank/feature_transformations/ranking_transformers.py', 'FeatureTransformerGeneric.construct_new_features'),
         A('outrank/feature_transformations/feature_transformer_vault/fw_transformers.py', '<module>'),
+        A('outrank/core_ranking.py', 'enrich_with_transformations'),
     ],
     'C13': [
         A('outrank/core_ranking.py', 'compute_coverage'),
@@ -98,12 +116,14 @@ ANCHORS = {
         A('outrank/core_ranking.py', '<module>'),
         A('outrank/core_ranking.py', 'compute_cardinalities'),
         A('outrank/core_utils.py', 'internal_hash'),
+        A('outrank/core_ranking.py', 'estimate_importances_minibatches'),
     ],
     'C14': [
         A('outrank/algorithms/sketches/counting_ultiloglog.py', 'HyperLogLogWCache.add'),
         A('outrank/algorithms/sketches/counting_ultiloglog.py', 'HyperLogLogWCache.__len__'),
         A('outrank/algorithms/sketches/counting_ultiloglog.py', 'HyperLogLogWCache.__init__'),
         A('outrank/algorithms/sketches/counting_ultiloglog.py', 'HyperLogLogWCache._hasher_update'),
+        A('outrank/core_ranking.py', 'compute_cardinalities'),
     ],
     'C15': [
         A('outrank/algorithms/sketches/counting_cms.py', 'cms_hash'),
@@ -115,6 +135,7 @@ ANCHORS = {
         A('outrank/algorithms/sketches/counting_cms.py', 'CountMinSketch.__init__'),
         A('outrank/algorithms/sketches/counting_counters_ordinary.py', 'PrimitiveConstrainedCounter.__init__'),
         A('outrank/algorithms/sketches/counting_counters_ordinary.py', 'PrimitiveConstrainedCounter.batch_add'),
+        A('outrank/core_ranking.py', 'compute_cardinalities'),
     ],
     'C16': [
         A('outrank/core_utils.py', 'parse_ob_csv_line'),
@@ -136,6 +157,7 @@ ANCHORS = {
         A('outrank/task_summary.py', 'read_and_sort_triplets'),
         A('outrank/task_summary.py', 'outrank_task_result_summary'),
         A('outrank/task_summary.py', 'store_summary_files'),
+        A('outrank/__main__.py', 'main'),
     ],
     'C19': [
         A('outrank/algorithms/synthetic_data_generators/cc_generator.py', 'CategoricalClassification.generate_data'),
